@@ -258,6 +258,11 @@ def r04_2_failure_hands_back(ctx: Ctx) -> None:
             inst = f"{fi.module.rel}:{fi.qualname}:{src(call)[:70]}"
             first_none = a_first is None or (isinstance(a_first, ast.Constant) and a_first.value is None)
             if first_none:
+                if isinstance(a_second, ast.Name):
+                    # a local that stands for the existing operation
+                    binds = [n.value for n in ast.walk(fi.node) if isinstance(n, ast.Assign) and any(isinstance(t, ast.Name) and t.id == a_second.id for t in n.targets)]
+                    if len(binds) == 1:
+                        a_second = binds[0]
                 ok_second = a_second is not None and cur is not None and src(a_second) == f"{cur}.operation"
                 ok_done = isinstance(a_done, ast.Constant) and a_done.value is False
                 if ok_second and ok_done:
